@@ -23,7 +23,9 @@ Dispatch(impl, e) == IF e \in impl THEN <<e>> ELSE <<>>
 
 \* which messages carry an adjustment / updates back
 AdjustOf(e, ctr) == IF e = "CreateContainer" THEN "CreateContainer/" \o ctr ELSE ""
-UpdatesOf(e) == IF e \in {"CreateContainer", "UpdateContainer", "StopContainer"} THEN <<"upd-of-" \o e>> ELSE <<>>
+\* the handlers answer with an update of another container and one (ignore-failure, cpu shares 77) of the request's own
+UpdatesOf(e) == IF e \in {"CreateContainer", "UpdateContainer", "StopContainer"}
+                THEN <<"upd-of-" \o e, "ctr-" \o e \o "!:77">> ELSE <<>>
 
 \* ---------------------------------------------------------------- scenarios --
 CONSTANTS Masks,     \* the handler subsets to generate, as sets of event names (a set of sets)
